@@ -8,6 +8,27 @@ BASE = "cd /repo && /venv/bin/python -m pytest -ra -q -p no:cacheprovider --time
 
 # id -> dict(level, text, note, technique, design_ref, engine)
 CLAIMS = {
+ "C04": dict(
+  level="model_checking",
+  text="Envelope.tla states SignJudge (exactly one block appended, every other element byte-identical, block verifies under "
+       "the matching key over the envelope's digest, protected header {alg, wrapped key id}, fixed-width ECDSA). Sign_MC "
+       "checks an implementation-shaped sign_envelope against it over all bounded operation sequences; TLC-emitted "
+       "sequences are replayed with real keys into the real sign single-level (library + CLI); every output is projected "
+       "(own CBOR reader, public-key verification over the rebuilt Sig_structure) and judged by TLC; >= 300 (quick) / 3000 "
+       "(thorough) raw KMS signatures per curve are judged for fixed width.",
+  note="Trusted: TLC, verifier's CBOR reader, cryptography/pycryptodome for verification only. Needs fix F1 (27c7c27).",
+  technique="TLA+ spec (Envelope.tla, Sign_MC.tla) + TLC model checking + TLC-generated operation sequences replayed into real sign + TLC trace validation",
+  design_ref="DESIGN.md 4.5, 5 (C04)", engine="tlc"),
+ "C09": dict(
+  level="model_checking",
+  text="Sign_MC (policy table over operation sequences) and Sign_RecMC (RecursiveSigner over a 3-level hierarchy, every "
+       "assignment of the reduced per-node alphabet: omit, algorithm ok/mismatch, three actions, pre-signed, key missing, "
+       "dependency absent / not an envelope) are checked exhaustively against SignJudge / RecursiveJudge; the TLC-enumerated "
+       "configurations are concretised (real nested envelopes, keys, JSON configuration) and run through the real sign "
+       "recursive; seeded deeper trees with inherited algorithms; every run is a Recursive event judged by TLC.",
+  note="Trusted as C04. Refusal = no output file (exception class/message not judged). Needs fixes F1 (27c7c27), F6 (ab18fe9).",
+  technique="TLA+ spec (Extract.tla RecursiveJudge, Sign_MC, Sign_RecMC) + TLC exhaustive model checking + TLC-generated configurations replayed into real sign recursive + TLC trace validation",
+  design_ref="DESIGN.md 4.5, 5 (C09)", engine="tlc"),
  "C01": dict(
   level="model_checking",
   text="Envelope_MC models the create pipeline (from_obj; update_severable_digests; update_digest; to_cbor) with a "
